@@ -153,7 +153,8 @@ def run(res, tier, seed, search):
              {"low_memory": True, "tree_init": False, "n_jobs": 1}, {"low_memory": False, "tree_init": False, "n_jobs": -1}]
     fams.append(("sparse_clustered", "euclidean"))
     if tier == "quick" and not search:
-        plan = [(fams[(seed + i) % (len(fams) - 1)], modes[(seed + i) % len(modes)]) for i in range(3)] + [(("sparse_clustered", "euclidean"), modes[0])]
+        plan = [(fams[(seed + i) % (len(fams) - 1)], modes[(seed + i) % len(modes)]) for i in range(3)] + [(("sparse_clustered", "euclidean"), modes[0]),
+                                                                                                             (("sparse", "cosine"), modes[3]), (("sparse", "euclidean"), modes[1])]
         n = 1200
     else:
         plan = [(f, m) for f in fams for m in modes]
